@@ -77,6 +77,14 @@ def run(ctx):
                 pre, pim = Q.corner_of_phases(ph)
                 cases.append({"fn": "qspp", "poly": Q.cplx_hex([x * f for x in pre], [x * f for x in pim]), "complex": True, "signal_operator": "Wx",
                               "measurement": "z", "tolerance": hexf(rng.choice([1e-6, 1e-8])), "kind": "misscaled", "mode": "scaled", "timeout": 300})
+        # mis-scaled by a few 1e-7 only (inside the fixed 1e-6 of the completion's own unitarity test) at tolerances far below that:
+        # the reconstruction error ~ 2e-7 must be compared with the tolerance as it is, not after rounding / a floor
+        for d in ([2, 3, 5, 6] if quick else range(1, 11)):
+            for f in (1 + 2e-7, 1 - 3e-7, 1 + 4e-7):
+                ph = (gen_phases(rng, d, rng.choice(["generic", "moderate"])) + [0.1] * (d + 1))[: d + 1]
+                pre, pim = Q.corner_of_phases(ph)
+                cases.append({"fn": "qspp", "poly": Q.cplx_hex([x * f for x in pre], [x * f for x in pim]), "complex": True, "signal_operator": "Wx",
+                              "measurement": "z", "tolerance": hexf(rng.choice([1e-10, 1e-9, 1e-11])), "kind": "misscaled-1e-7", "mode": "scaled", "timeout": 300})
         # not the corner of any QSP unitary because both parities are present: an achievable corner plus an off-parity term
         for d in ([2, 3, 4, 7] if quick else range(1, 13)):
             for rep in range(2 if quick else 6):
